@@ -34,6 +34,9 @@ class Gen:
         k = r() % 100
         if k < 30:
             op = self.pick(["+", "+", "-", "*", "<", "<=", ">", ">=", "===", "!==", "==", "!=", "%"])
+            if r() % 6 == 0:
+                return "(%s %s %s)" % (self.pick(["1", "0", "2", "true", "false", "null", '"1"', '"0"', '""', '"a"']), self.pick(["==", "!=", "===", "!=="]),
+                                       self.pick(["1", "0", "true", "false", "undefined", '"1"', '"0"', '""', '"2"']))
             return "(%s %s %s)" % (self.expr(d - 1), op, self.expr(d - 1))
         if k < 40:
             return "(%s %s %s)" % (self.expr(d - 1), self.pick(["&&", "||", "??"]), self.expr(d - 1))
@@ -46,7 +49,7 @@ class Gen:
         if k < 76:
             return "(%s %s)" % (self.pick(["!", "typeof", "void", "-", "+"]), self.expr(d - 1))
         if k < 84:
-            return "(%s / 2)" % self.expr(d - 1)
+            return "(%s / %s)" % (self.expr(d - 1), self.pick(["2", "2", "4", "10", "3", "6"]))
         if k < 92:
             return "(%s ** 2)" % (self.lit() if r() % 2 else self.expr(d - 1))
         return "%s %s %s" % (self.lit(), self.pick(["+", "*", "-", "<"]), self.lit())
@@ -103,6 +106,9 @@ def d_program(r):
             "'5' * '2'", "'5' + 2", "2 ** 10", "7 % 3", "-7 % 3", "1 / 0", "(1, 2, f(7))", "c / 2", "c ** 2", "(a ** 2) ** 2",
             "10n / 2", "10n ** 2", "0.1 + 0.2", "2147483647 + 1", "(-2147483648) % (-1)".replace("%", "* 1 +"), "1 << 31", "'a' < 'b'", "null == undefined",
             "[] + 1", "f(1) / 2", "g(1) ** 2",
+            "c / 10", "c / 6", "gx / 10", "3 / 10 + c / 10", "f(5) / 6", "c / 4", "a / 10", "(c / 10) * 3",
+            "1 != '1'", "0 != ''", "true != 1", "null != void 0", "'1' == 1", "1n != 1", "'0x10' != 16", "0 == ''", "null == 0", "'a' != 'a'", "1 !== '1'",
+            "(1 != '1') ? f(21) : f(22)", "(0 == '') && f(23)", "(null != void 0) || f(24)",
             "(0/0 || f(11))", "(0/0 && f(12))", "(+'abc' || f(13))", "('a'*1 && f(14))", "(-'x' ?? f(15))", "(1/0 && f(16))",
             "(0, ob.m)()", "('x', ob['m'])()", "(ob.m)()", "(0, ob.m).call(ob)", "delete (0, ob.p)", "typeof (0, ob.m)", "(1, 2, ob.m)()",
             "(null, eval)('1+1')", "(0, f)(17)", "(true && ob.m)()", "(false || ob.m)()", "(null ?? ob.m)()"]
@@ -116,7 +122,11 @@ def d_program(r):
             c = ["true", "false", "1 < 2", "'' ", "0n"][r() % 5]
             stmts.append("if (%s) { print('T'); %s; } else { print('E'); var hv%d = 1; function hf%d(){} }" % (c, e, r() % 3, r() % 3))
         elif k < 8:
-            stmts.append("while (false) { var wv = %s; }" % e)
+            stmts.append(["while (false) { var wv = %s; }" % e,
+                          "for (var dw = 0; dw < 3; dw++) { do { if (dw == 1) continue; print('in ' + dw); } while (false); print('after ' + dw); }",
+                          "for (var dv = 0; dv < 2; dv++) { do { f(30 + dv); if (dv) break; print('body ' + dv); } while (!1); print('next ' + dv); }",
+                          "do { print('once'); } while (2 != '2'); lbl: do { print('L'); continue lbl; } while (false);",
+                          "var dz = 0; do { dz++; if (dz < 3) continue; } while (0); print('dz ' + dz);"][r() % 5])
         elif k < 9:
             stmts.append("for (%s; false; f(9)) { print('never'); }" % (["", "f(8)", "var fv = f(10)", "let li = f(18)", "const lc = f(19)",
                                                                          "let [la] = [f(20)]"][r() % 6]))
